@@ -97,8 +97,9 @@ def harness(is_view, has_grad, exc_cls):
 
         g0 = Opaque("prior grad") if has_grad else None
         vg0 = Opaque("prior view grad") if (has_grad and is_view) else None
+        bg0 = Opaque("gradient held by the owner") if has_grad else None
         if is_view:
-            base = mk("base")
+            base = mk("base", _grad=bg0)
             me = mk("self", _grad=g0, _view_grad=vg0, _base=base, _creator=Opaque("view op"))
             base.fields["_view_children"] = [me]
         else:
@@ -116,7 +117,7 @@ def harness(is_view, has_grad, exc_cls):
 
         class Graph:
             def __init__(self_, root):
-                log.append(("graph-built", root))
+                log.append(("graph-built", root, root.fields.get("_grad") if isinstance(root, SObj) else "?"))
                 self_.base = Node(base, ph_base)
 
             def get_path_to_base(self_, t):
@@ -174,6 +175,10 @@ def harness(is_view, has_grad, exc_cls):
         ctx.oblige(f"{tag}.same_exception_reraised", got is the_exc, raised=got.cls_name(), **meta)
         ctx.oblige(f"{tag}.restore_old_graph_called_once_on_failure", after.count(("restore",)) == 1, after=repr(after), **meta)
         ctx.oblige(f"{tag}.prior_grad_view_grad_base_restored", me.fields["_grad"] is prior[0] and me.fields["_view_grad"] is prior[1] and me.fields["_base"] is prior[2], **meta)
+        if is_view:
+            ctx.oblige(f"{tag}.owners_gradient_restored", base.fields["_grad"] is bg0, **meta)
+        built = [e for e in log if e[0] == "graph-built"]
+        ctx.oblige(f"C07.inplace[{'view' if is_view else 'base'},grad={'some' if has_grad else 'none'},{exc_cls.__name__}].owner_gradient_nulled_before_the_placeholder_graph_is_built", len(built) == 1 and built[0][1] is base and built[0][2] is None, **meta)
         ctx.oblige(f"{tag}.nothing_else_after_failure", all(ev in (("restore",), ("exit", "mem_guard_off"), ("exit", "no_autodiff")) for ev in after), after=repr(after), **meta)
         bal = all(sum(1 for ev in log if ev == ("enter", n)) == sum(1 for ev in log if ev == ("exit", n)) for n in ("mem_guard_off", "no_autodiff"))
         ctx.oblige(f"{tag}.guard_contexts_exited", bal, **meta)
